@@ -1428,3 +1428,11 @@ val kf1_C04 : vt -> func -> bool
 val holds_C04_wrapmark : vt -> func -> vt -> bool
 
 val wrapmark_lost : vt -> func -> vt -> bool
+
+val text_at : cell list list -> cell list list -> nat -> bool
+
+val text_upto : cell list list -> cell list list -> nat -> nat -> bool
+
+val return_text_ok : cell list list -> cell list list -> bool
+
+val holds_C16_return_text : vt -> func -> vt -> bool
